@@ -18,7 +18,7 @@ RULE = ('Engine A (metamorphic): every base case of DEV(3,d) u DEV(4,d) (d = 1 |
         '(eligibility renamed alike), scale c in {2^-20, 2^-3, 2, 2^10, 2^30} with the budget range scaled alike. Oracle: same designs '
         'after mapping IDs back (groups, verdicts, rounded correlation; impact and last score entry equal, or scaled '
         'by c / 1/c; unchanged last entry when the exhaustive search has a budget range; 1e-7 relative under scaling). '
-        'A mismatch is only reported when the base result has no score tie within tolerance at the differing positions. '
+        'A mismatch under renaming or scaling is only reported when the base result has no score tie within tolerance at the differing positions; row permutations, date offsets and int<->str IDs are compared STRICTLY (no tie tolerance), also on a panel with two identical geos carrying the IDs 2 and 10. '
         'Non-trivial = base search returned >= 1 design; distinct = distinct base case.')
 ASSUMPTIONS = ['scale factors are powers of two (exact), statsmodels/scipy arithmetic under scaling compared at 1e-7',
                'values: fixed integer panels']
@@ -31,7 +31,8 @@ def search(case, rows=None, idmap=None, id_type='int', scale=1.0):
     p = case['panel']
     G = p['G']
     base_rows = panels.rows(p) if rows is None else rows
-    idmap = idmap or (lambda g: g)
+    base_ids = case.get('ids')          # integer IDs other than 0..G-1 (e.g. 2 and 10: numeric and string order differ)
+    idmap = idmap or ((lambda g: base_ids[g]) if base_ids else (lambda g: g))
     inv = {str(idmap(g)): str(g) for g in range(G)}
     geo_col = [idmap(r[1]) for r in base_rows]
     if id_type == 'str':
@@ -73,8 +74,9 @@ def shift(rows, days):
     return [((datetime.date.fromisoformat(r[0]) + datetime.timedelta(days=days)).isoformat(), r[1], r[2]) for r in rows]
 
 
-def compare(base, other, c, budgeted, tol):
-    """-> None or text.  c = scale factor applied to the responses of `other`."""
+def compare(base, other, c, budgeted, tol, strict=False):
+    """-> None or text.  c = scale factor applied to the responses of `other`.  strict: ties are NOT tolerated (the
+    presentation leaves every value and the order of the geo IDs as strings unchanged, so even tie-breaking must agree)."""
     if base[0] != other[0]:
         return 'outcome %s vs %s' % (base[:2] if base[0] == 'exc' else 'designs', other[:2] if other[0] == 'exc' else 'designs')
     if base[0] == 'exc':
@@ -91,7 +93,7 @@ def compare(base, other, c, budgeted, tol):
         if not ok:
             # tolerate a reordering among designs whose base scores tie
             ties = [z for z in b if all(sc.close(u, v, 1e-9) for u, v in zip(z['score'], x['score']))]
-            if len(ties) > 1 and any(z['T'] == y['T'] and z['C'] == y['C'] for z in ties):
+            if not strict and len(ties) > 1 and any(z['T'] == y['T'] and z['C'] == y['C'] for z in ties):
                 continue
             return 'position %d: base T=%s C=%s score=%s ri=%r | transformed T=%s C=%s score=%s ri=%r (scale %g)' % (
                 i, x['T'], x['C'], x['score'], x['ri'], y['T'], y['C'], y['score'], y['ri'], c)
@@ -122,6 +124,17 @@ def cases(tier, seed):
             for m in sc.METHODS:
                 out.append({'panel': p, 'rows': rows, 'nomatrix': False, 'extra': None, 'kw': dict(kw, n_designs=4),
                             'deviations': 2, 'method': m})
+    # exact TIES: two geos with identical series and the integer IDs 2 and 10 (numeric order 2 < 10, string order
+    # '10' < '2'); row order, date shifts and int/str IDs must not even change how ties are broken
+    pE = {'name': 'E', 'G': 4, 'T': 12}
+    for c in spaces.with_methods(spaces.dev_configs(pE, 1, ['treatment_geos_range', 'control_geos_range', 'n_geos_max', 'n_designs'],
+                                                    base_kw={'n_designs': 4}, k_values=(1, 50), with_matrix_level=False)):
+        out.append(dict(c, ids=[7, 2, 10, 1]))
+    for r1, r2 in (([0, 1, 1], [0, 1, 1]), ([1, 0, 1], [1, 0, 1]), ([0, 1, 1], [1, 1, 1])):
+        for m in sc.METHODS:
+            for k in (1, 2):
+                out.append({'panel': pE, 'rows': [[1, 0, 1], r1, r2, [1, 0, 1]], 'nomatrix': False, 'extra': None,
+                            'kw': {'n_designs': k, 'treatment_geos_range': [1, 1]}, 'deviations': 4, 'method': m, 'ids': [7, 2, 10, 1]})
     out = [c for c in out if spaces.precondition_ok(c)]
     out.sort(key=lambda c: (c['deviations'], c['panel']['G']))
     return out
@@ -153,7 +166,8 @@ def run_case(case):
     for name, kw in variants:
         c = kw.get('scale', 1.0)
         other = search(case, **kw)
-        msg = compare(base, other, c, budgeted, 1e-7 if c != 1.0 else 1e-9)
+        msg = compare(base, other, c, budgeted, 1e-7 if c != 1.0 else 1e-9,
+                      strict=name.startswith(('rows-', 'dates', 'ids-as-strings')))
         if msg:
             viol.append({'key': 'C12:%s:%s' % (case['method'].split('_')[0], name), 'msg': name + ': ' + msg})
     nd = len(base[1]) if base[0] == 'ok' else 0
